@@ -212,6 +212,9 @@ def calc_phase_permutation(
     moved = set()
     swaps = 0
     for ax in perm:
+        if ax < 0:
+            # axis counted from the end
+            ax += len(parities)
         # we are moving charge at ax to the beginning
         if parities[ax]:
             # if it is odd, count how many odd charges it crosses
